@@ -69,10 +69,27 @@ def gen_reattach_program(rng, gl):
     return prog, 1
 
 
+def gen_recycle_program(rng, gl):
+    """slots that are freed and handed out again: a pass gives some glyphs user attributes (and an advance), a later pass deletes them, a
+    later one inserts new glyphs -- which take the freed slots -- and a last one tests a user attribute of whatever stands there: an inserted
+    glyph starts with every attribute at 0"""
+    a, b, x, y = rng.sample(gl, 4)
+    u = [rng.choice((1, 2, 7, -3)) for _ in range(2)]
+    p1 = dict(maxloop=1, rules=[dict(pre=0, pat=[{a}], acts=[[('U', 0, u[0]), ('U', 1, u[1])] + ([('A', 777)] if rng.random() < 0.5 else [])], con=None, ret=0)], alpha=[a, b, x, y], feats=None)
+    p2 = dict(maxloop=2, rules=[dict(pre=0, pat=[{a}, {b, a}], acts=[[('D',)], []], con=None, ret=0)], alpha=[a, b, x, y])
+    p3 = dict(maxloop=2, rules=[dict(pre=0, pat=[{b}], acts=[[('I', x)]], con=None, ret=0)], alpha=[a, b, x, y])
+    p4 = dict(maxloop=1, rules=[dict(pre=0, pat=[{x}], acts=[[('G', y)]], con=(0, rng.choice('eg'), rng.choice((0, u[1], u[0])), rng.randrange(2)), ret=0)], alpha=[a, b, x, y])
+    prog = [p1, p2, p3] + ([p4] if rng.random() < 0.7 else [])
+    prog[0]['hint'] = rng.choice(([a, b], [a, a, b], [a, b, a, b], [b, a, b]))
+    return prog, len(prog)
+
+
 def gen_program(rng, gl):
     """gl: glyph ids reachable from the keyboard"""
     if rng.random() < 0.12:
         return gen_growth_program(rng, gl)
+    if rng.random() < 0.08:
+        return gen_recycle_program(rng, gl)
     if rng.random() < 0.12:
         return gen_reattach_program(rng, gl)
     prog = []
